@@ -7,12 +7,13 @@ import Asn1Verif.Front.Printer
     property allows for SIZE constraints: `SIZE(0..MAX)` is no constraint, `SIZE(n..n)` is
     `SIZE(n)`.  Nothing else is changed.
   * `…Wf`: the supported subset (decidable): numbers fit the crate's integer types, names are not
-    keywords where a keyword could be read, lists that must not be empty are not empty, marker
-    positions are inside the list, `OPTIONAL` only on components.
-  * the three *lossy* behaviours of the parser are separate decidable predicates, so that the
+    keywords where a keyword could be read (a reference in a bound position is not spelled exactly
+    `MIN` / `MAX`; `min`, `Max`, … are ordinary references since the keyword match became exact),
+    lists that must not be empty are not empty, marker positions are inside the list, `OPTIONAL`
+    only on components.
+  * the two *lossy* behaviours of the parser are separate decidable predicates, so that the
     partial theorem names them as hypotheses: `…NoWiden` (no `INTEGER (0..MAX)` /
-    `(MIN..i64::MAX)`), `…NoKwRef` (no value reference called `min`/`max`), `niceName` (module
-    names without `Module` suffix).
+    `(MIN..i64::MAX)`), `niceName` (module names without `Module` suffix).
 -/
 namespace Asn1Verif.Front.Syn
 
@@ -69,46 +70,33 @@ def tagWf : Option Tag → Bool
 /-- a name where an `i64` bound is read: it must not read as a number -/
 def intRefWf (s : String) : Bool := (parseI64 s).isNone
 
-def boundWf : Option URange → Bool
+/-- a bound where the keyword `kw` (`MIN` resp. `MAX`) could be read: a reference is not that
+    keyword itself (exact spelling; value references start with a lower-case letter anyway) -/
+def boundWf (kw : String) : Option URange → Bool
   | none => true
   | some (.lit i) => inI64 i
-  | some (.ref s) => intRefWf s
+  | some (.ref s) => intRefWf s && s != kw
 
-def rangeWf (r : Range URange) : Bool := boundWf r.min && boundWf r.max
+def rangeWf (r : Range URange) : Bool := boundWf "MIN" r.min && boundWf "MAX" r.max
 
 /-- lossy behaviour 1: `(0..MAX)` and `(MIN..i64::MAX)` are widened to "no range" -/
 def rangeNoWiden (r : Range URange) : Bool :=
   !(r.min == some (.lit 0) && r.max == none) && !(r.min == none && r.max == some (.lit I64_MAX))
 
-/-- lossy behaviour 2: a reference called `min` (lower bound) / `max` (upper bound), in any case,
-    is taken for the keyword -/
-def boundNoKwRef (kw : String) : Option URange → Bool
-  | some (.ref s) => !eqIC s kw
-  | _ => true
-
-def rangeNoKwRef (r : Range URange) : Bool := boundNoKwRef "MIN" r.min && boundNoKwRef "MAX" r.max
-
 def constsWfI (cs : List (String × Int)) : Bool := cs.all fun c => inI64 c.2
 def constsWfU (cs : List (String × Nat)) : Bool := cs.all fun c => inU64 c.2
 
-def sizeAtomWf : USz → Bool
+/-- a size bound where the keyword `kw` could be read (see `boundWf`) -/
+def sizeAtomWf (kw : String) : USz → Bool
   | .lit n => inU64 n
-  | .ref s => (parseU64 s).isNone
-
-def sizeAtomNoKwRef (kw : String) : USz → Bool
-  | .lit _ => true
-  | .ref s => !eqIC s kw
+  | .ref s => (parseU64 s).isNone && s != kw
 
 /-- `SIZE(0..MAX, ...)` is refused by the parser (outside the subset) -/
 def sizeWf : Size USz → Bool
   | .any => true
-  | .fix n _ => sizeAtomWf n
-  | .range a b e => sizeAtomWf a && sizeAtomWf b && !(a == .lit 0 && b == .lit SIZE_MAX && e)
-
-def sizeNoKwRef : Size USz → Bool
-  | .any => true
-  | .fix n _ => sizeAtomNoKwRef "MIN" n
-  | .range a b _ => sizeAtomNoKwRef "MIN" a && sizeAtomNoKwRef "MAX" b
+  | .fix n _ => sizeAtomWf "MIN" n
+  | .range a b e =>
+    sizeAtomWf "MIN" a && sizeAtomWf "MAX" b && !(a == .lit 0 && b == .lit SIZE_MAX && e)
 
 def extWf (e : Option Nat) (len : Nat) : Bool :=
   match e with
@@ -123,7 +111,7 @@ def litWf : LiteralValue → Bool
   | .boolean _ => true
   | .integer i => inI64 i
   | .string _ => true
-  | .octetString bs => !bs.isEmpty && bs.all fun b => decide (b < 256)
+  | .octetString bs => bs.all fun b => decide (b < 256)
   | .enumeratedVariant _ _ => false
 
 def defaultWf : UConst → Bool
@@ -180,30 +168,9 @@ def variantsNoWiden : UVariants → Bool
   | .cons _ _ ty rest => tyNoWiden ty && variantsNoWiden rest
 end
 
-mutual
-def tyNoKwRef : UTy → Bool
-  | .integer r _ => rangeNoKwRef r
-  | .string s _ => sizeNoKwRef s
-  | .octetString s => sizeNoKwRef s
-  | .bitString s _ => sizeNoKwRef s
-  | .optional t => tyNoKwRef t
-  | .sequence fs _ => fieldsNoKwRef fs
-  | .sequenceOf t s => tyNoKwRef t && sizeNoKwRef s
-  | .set fs _ => fieldsNoKwRef fs
-  | .setOf t s => tyNoKwRef t && sizeNoKwRef s
-  | .choice vs _ => variantsNoKwRef vs
-  | _ => true
-def fieldsNoKwRef : UFields → Bool
-  | .nil => true
-  | .cons _ _ ty _ rest => tyNoKwRef ty && fieldsNoKwRef rest
-def variantsNoKwRef : UVariants → Bool
-  | .nil => true
-  | .cons _ _ ty rest => tyNoKwRef ty && variantsNoKwRef rest
-end
-
 /-! ### module level -/
 
-/-- lossy behaviour 3: `make_name_nice` -/
+/-- lossy behaviour 2: `make_name_nice` -/
 def niceName (s : String) : Bool := makeNameNice s == s
 
 /-- a name at the start of a top-level item: not `END`/`IMPORTS` (the body loop would take it for
@@ -233,9 +200,6 @@ def moduleWf (m : UModule) : Bool :=
 
 def moduleNoWiden (m : UModule) : Bool :=
   (m.definitions.all fun d => tyNoWiden d.ty) && (m.valueReferences.all fun v => tyNoWiden v.ty)
-
-def moduleNoKwRef (m : UModule) : Bool :=
-  (m.definitions.all fun d => tyNoKwRef d.ty) && (m.valueReferences.all fun v => tyNoKwRef v.ty)
 
 def moduleNiceNames (m : UModule) : Bool :=
   niceName m.name && m.imports.all fun i => niceName i.«from»
